@@ -232,6 +232,7 @@ def getSeen (j : Json) : Except String Seen := do
   | "eof" => pure .eof
   | "blocked" => pure .blocked
   | "pending" => pure .pending
+  | "skipped" => pure (.err "skipped")
   | r => throw s!"unknown result {r}"
 
 /-- a write result carries n -/
@@ -278,6 +279,23 @@ def scriptSpec (ops : Array Op) (res : Array Seen) (late : List (Nat × Seen)) (
   let fail := fun (o : SpecOut) (why sig : String) => if o.ok then { o with ok := false, why := why, sig := sig } else o
   -- eventual result of op i
   let final := finalRes ops res late
+  -- fault points the INPUT determines: a cut armed at one end is reached by the successful
+  -- Write there that crosses it (or at once for k = 0); from then on the trunk is dead and
+  -- both ends must fail
+  let mut cutAt : Option Nat := none
+  let mut armed : List (Nat × Nat) := []      -- (end, bytes still forwarded)
+  for i in [0:ops.size] do
+    let op : Op := ops[i]!
+    if cutAt.isNone then
+      if op.kind == OpKind.cut && res[i]! == Seen.ok 0 then
+        if op.k == 0 then cutAt := some i else armed := (op.x, op.k) :: armed.filter (·.1 != op.x)
+      else if op.kind == OpKind.write then
+        match res[i]!, armed.find? (·.1 == op.x) with
+        | .ok _, some (_, left) =>
+          let bytes := 8 + op.payload.length     -- script payloads fit one frame
+          if bytes ≥ left then cutAt := some i
+          else armed := (op.x, left - bytes) :: armed.filter (·.1 != op.x)
+        | _, _ => pure ()
   for x in [0, 1] do
     -- when is end x known to be closed?  (first Read error on a conn that was not closed
     -- individually, or a returned mux Close)
@@ -318,7 +336,12 @@ def scriptSpec (ops : Array Op) (res : Array Seen) (late : List (Nat × Seen)) (
               out := fail out s!"op {i}: Read on a connection opened after the mux had closed (op {c}) never returns" "C11:open-after-close:read-blocks"
             else
               out := fail out s!"op {i}: {if op.kind == .write then "Write" else "Read"} still blocked although the mux closed at op {c}" "C11:blocked-after-close"
-          | none => pure ()
+          | none =>
+            match cutAt with
+            | some c =>
+              if i > c + 1 && op.kind != OpKind.write then
+                out := fail out s!"op {i}: Read still blocked although the trunk was cut at op {c}" "C11:blocked-after-cut"
+            | none => pure ()
         | _ => pure ()
       -- results after the close
       match closedAt with
@@ -402,7 +425,11 @@ def judgeScript (pid : String) (inp obs : Json) : Except String Verdict := do
              cover := cover0 ++ ["crashed"], nontrivial := true }
   let resJ ← getArr obs "res"
   if resJ.length != ops.length then throw "res/ops length mismatch"
-  let res ← (ops.zip resJ).mapM fun (op, j) => getSeenFor op j
+  let res0 ← (ops.zip resJ).mapM fun (op, j) => getSeenFor op j
+  -- the harness abandons a script after three hung calls: judge what was executed
+  let nrun := (res0.takeWhile (· != Seen.err "skipped")).length
+  let ops := ops.take nrun
+  let res := res0.take nrun
   let lateJ ← getArr obs "late"
   let late : List (Nat × Seen) ← lateJ.mapM fun j => do
     pure ((← getNat j "op"), (← getSeen (← getObj j "res")))
